@@ -190,6 +190,10 @@ pub struct Case {
     /// the timers that are still armed then (ghosts of fired / re-armed / former timers must not shorten it)
     #[serde(default)]
     pub follow: Option<u8>,
+    /// timers inserted between the measured dispatch and the follow-up one, due `ms` (1..=30) after their insertion:
+    /// the follow-up dispatch is limited by them as by any other armed timer and has to fire them
+    #[serde(default)]
+    pub late: Vec<u8>,
 }
 
 impl Tmo {
@@ -300,6 +304,13 @@ pub fn normalise(c: &Case) -> Case {
         };
     }
     n.idle.truncate(5);
+    n.late.truncate(2);
+    for l in &mut n.late {
+        *l = (*l).clamp(1, 30);
+    }
+    if n.follow.is_none() {
+        n.late.clear();
+    }
     for i in &mut n.idle {
         if let Idle::StreamEnded { items } = i {
             *items = (*items).min(3);
@@ -399,8 +410,10 @@ fn case_strategy() -> impl Strategy<Value = Case> {
         // how an otherwise unbounded Long/None wait gets bounded (construction, not rejection)
         (any::<bool>(), 1u8..=40, helper_strategy()),
         prop_oneof![3 => Just(None), 2 => (0u8..=40).prop_map(Some)],
+        prop_oneof![3 => Just(vec![]), 2 => proptest::collection::vec(1u8..=30, 1..=2)],
     )
-        .prop_map(|(timeout, mut timers, idle, mut helper, (by_timer, ms, h), follow)| {
+        .prop_map(|(timeout, mut timers, idle, mut helper, (by_timer, ms, h), follow, late)| {
+            let late = if follow.is_some() { late } else { vec![] };
             // the follow-up dispatch is only judged without a waking helper: mostly generate it that way
             if follow.is_some() && helper.map_or(false, |h| h.kind != HelperKind::Signal && h.delay_ms % 4 != 0) {
                 helper = None;
@@ -409,7 +422,7 @@ fn case_strategy() -> impl Strategy<Value = Case> {
             if idle.iter().any(|i| matches!(i, Idle::SlowHook)) && timers.len() < 4 && ms % 3 != 0 {
                 timers.push(TimerSpec::AtLate);
             }
-            let mut c = Case { timeout, timers: timers.clone(), idle: idle.clone(), helper, follow };
+            let mut c = Case { timeout, timers: timers.clone(), idle: idle.clone(), helper, follow, late: late.clone() };
             let waking_helper = helper.map_or(false, |h| h.kind != HelperKind::Signal);
             if matches!(timeout, Tmo::Long | Tmo::None) && !has_bounding_timer(&c) && !waking_helper {
                 if by_timer {
@@ -421,7 +434,7 @@ fn case_strategy() -> impl Strategy<Value = Case> {
                     let kind = if h.kind == HelperKind::Signal { HelperKind::Wakeup } else { h.kind };
                     helper = Some(Helper { kind, delay_ms: h.delay_ms });
                 }
-                c = Case { timeout, timers, idle, helper, follow };
+                c = Case { timeout, timers, idle, helper, follow, late };
             }
             c
         })
@@ -672,6 +685,8 @@ struct Obs {
     rescued_by_event: bool,
     /// callbacks seen in the last warm-up dispatch (should be 0: the loop is quiescent)
     last_warmup_callbacks: usize,
+    /// deadlines of the timers inserted after the measured dispatch (index = timers.len() + k)
+    late_deadlines: Vec<Instant>,
     /// follow-up dispatch: (t_before, t_after, trace)
     follow: Option<(Instant, Instant, Vec<(Src, Instant)>)>,
 }
@@ -1008,6 +1023,20 @@ fn run_once(c: &Case) -> Obs {
     cancel.cancel();
     let out = asst.join().expect("assistant thread");
     // optional follow-up dispatch: the assistant is gone, nothing but the still armed timers can end it early
+    // late timers: armed only now (their index continues after the case's own timers)
+    let mut late_deadlines = Vec::new();
+    if c.follow.is_some() {
+        for (k, ms) in c.late.iter().enumerate() {
+            let i = c.timers.len() + k;
+            let d = Instant::now() + Duration::from_millis(*ms as u64);
+            h.insert_source(Timer::from_deadline(d), move |_, _, t: &mut Trace| {
+                t.push(Src::Timer(i));
+                TimeoutAction::Drop
+            })
+            .expect("insert late timer");
+            late_deadlines.push(d);
+        }
+    }
     let follow = c.follow.map(|ms| {
         let mut trace2 = Trace::default();
         let b = Instant::now();
@@ -1027,6 +1056,7 @@ fn run_once(c: &Case) -> Obs {
         rescued_by_event: out.rescued_by_event,
         last_warmup_callbacks,
         follow,
+        late_deadlines,
     }
 }
 
@@ -1236,7 +1266,8 @@ fn judge(c: &Case, o: &Obs) -> Judgement {
                 }
                 _ => None,
             };
-            if let Some(d) = rearmed.or_else(|| o.deadlines.get(*i).copied().flatten()).as_ref() {
+            let late = i.checked_sub(c.timers.len()).and_then(|k| o.late_deadlines.get(k).copied());
+            if let Some(d) = rearmed.or(late).or_else(|| o.deadlines.get(*i).copied().flatten()).as_ref() {
                 if *t < *d {
                     j.hard.push(
                         Violation::new(
@@ -1465,6 +1496,12 @@ fn judge(c: &Case, o: &Obs) -> Judgement {
                     }
                 }
             }
+            for (k, d) in o.late_deadlines.iter().enumerate() {
+                live2.push((c.timers.len() + k, *d));
+            }
+            if !o.late_deadlines.is_empty() {
+                j.classes.push("follow_up_with_timers_inserted_after_the_first_dispatch");
+            }
             let earliest2 = live2.iter().map(|(_, d)| *d).min();
             let l2 = earliest2.map_or(follow_t, |d| follow_t.min(d.saturating_duration_since(*b2)));
             let unexpected2 = trace2
@@ -1685,7 +1722,8 @@ fn cross_product(include_long_waits: bool) -> Vec<Case> {
                 } else {
                     None
                 };
-                let c = normalise(&Case { timeout, timers: timers.clone(), idle, helper: None, follow });
+                let late = if follow.is_some() && timers.iter().any(|t| matches!(t, TimerSpec::Periodic { .. })) { vec![9, 14] } else { vec![] };
+                let c = normalise(&Case { timeout, timers: timers.clone(), idle, helper: None, follow, late });
                 if !include_long_waits && planned_bound_ms(&c).map_or(true, |b| b > 60) {
                     continue;
                 }
